@@ -115,6 +115,26 @@ def run(prog, tier, extra=None):
             else:
                 res.sample({"rule": R3, "site": body.loc(s["bb"]), "verdict": "hop signature gates"})
 
+    # ... and no hop is waved through: the per-hop closure cannot say "fine" without the true edge of verify(sig ++ to, hop.sig, hop.from)
+    for body in vr:
+        if not (body.kind == "Closure" and body.ty(0)["s"] == "bool"):
+            continue
+        chv = Chaser(body)
+        ver = gate.bool_switch_edges(body, chv, lambda e: e[0] == "call" and e[1].endswith("crypto::verify") and len(e[2]) == 3
+                                     and has_field(e[2][1], "hop::Hop", "sig") and has_field(e[2][2], "hop::Hop", "from"))
+        res.instance(R3)
+        if not ver["sites"]:
+            res.add(Finding(R3, "C08.routing-path|no-hop-verify", "validate_routing_path's per-hop check does not verify hop.sig against hop.from", body.loc(0)))
+            continue
+        from ..paths import Explorer
+        found = Explorer(body).explore(0, deleted_edges=ver["true"], accept=gate.make_accept(body, return_true=True))
+        if found:
+            kind, pth = sorted(found.items())[0]
+            res.add(Finding(R3, "C08.routing-path|hop-unverified", "validate_routing_path accepts a hop on a path that does not verify its signature: the hop's recipient (and with it "
+                            "the routing work and the router payout) can be rewritten by anyone", body.loc(pth[-1])))
+        else:
+            res.sample({"rule": R3, "site": [body.loc(x) for x in ver["sites"]], "verdict": "every accepted hop passed verify"})
+
     # R4: the routing work credited to the block creator halves exactly once per hop after the first: the loop that halves
     # runs len(path) - 1 times (iterator-length algebra: a..b -> b - a, windows(n) -> len - (n - 1), skip(k) -> - k)
     from ..linear import Lin, Linearizer
